@@ -12,9 +12,12 @@ package mr_test
 
 import (
 	"context"
+	"encoding/json"
 	"fmt"
 	"os"
+	"runtime"
 	"sort"
+	"strconv"
 	"sync"
 	"sync/atomic"
 	"testing"
@@ -29,6 +32,7 @@ const (
 	c07Tick      = time.Millisecond
 	c07KnownFile = "/verif/.work/C07-known.txt"
 	c07KnownID   = "panic-unheard"
+	c07KnownID2  = "write-close-race"
 	c07Far       = 1000000 // ticks: a context deadline that is never reached
 )
 
@@ -116,7 +120,7 @@ type c07Err struct {
 func (e *c07Err) Error() string { return fmt.Sprintf("c07 error %s/%d", e.src, e.i) }
 
 type c07Event struct {
-	kind string // cancel panic ctx write redret
+	kind string // cancel cancelret panic ctx write redret
 	src  string // item / reducer / generator
 	ts   time.Duration
 	err  error // cancel: the error the call has to return
@@ -129,6 +133,8 @@ func (e c07Event) String() string {
 		return fmt.Sprintf("cancel(%v)@%v by %s", e.err, e.ts, e.src)
 	case "panic":
 		return fmt.Sprintf("panic(%v)@%v", e.pv, e.ts)
+	case "cancelret":
+		return fmt.Sprintf("cancel-returned@%v", e.ts)
 	}
 	return fmt.Sprintf("%s@%v", e.kind, e.ts)
 }
@@ -174,6 +180,7 @@ type c07Run struct {
 	hurry     chan struct{}
 	hurryOnce sync.Once
 
+	stacks   string
 	returned bool
 	tret     time.Duration
 	out      c07Outcome
@@ -230,28 +237,42 @@ func (r *c07Run) userCancel(cancel func(error), err error) {
 		r.hurryUp()
 	}
 	cancel(err)
+	r.log(c07Event{kind: "cancelret"})
 }
 
-func (c c07Case) hasUserCancel() bool {
+func (c c07Case) userCancels() int {
 	if !c.hasReducer() {
-		return false
+		return 0
 	}
+	n := 0
 	for _, it := range c.Items {
 		if it.A == "cancel" || it.A == "cancelnil" {
-			return true
+			n++
 		}
 	}
-	return c.Red.A == "cancel" || c.Red.A == "cancelnil"
+	if c.Red.A == "cancel" || c.Red.A == "cancelnil" {
+		n++
+	}
+	return n
 }
+
+func (c c07Case) hasUserCancel() bool { return c.userCancels() > 0 }
 
 func (c c07Case) ctxNear() bool { return c.Ctx != "" && c.CtxAt < c07Far }
 
-// wedgeProne: a user cancel sits in drain(source), the caller (ctx done) waits
-// on the Once mutex and the generator panics: its onceChan.write has no reader
-// (known finding), the source is never closed, and because the caller is
-// blocked on a mutex synctest cannot report the deadlock. Not generated.
+// wedgeProne: a generator panic that nobody receives any more (known finding
+// panic-unheard) keeps the source open for ever, so the cancel call sitting in
+// drain(source) never completes; a second cancel call (user code, or the caller
+// on ctx.Done) then waits for ever on the mutex of the sync.Once around cancel.
+// synctest cannot report that deadlock (a mutex is not a durable block) and the
+// bubble would wedge in real time. Such cases are not generated (and are
+// counted as excluded when replayed).
 func (c c07Case) wedgeProne() bool {
-	return c.ctxNear() && c.hasUserCancel() && c.GenPanic >= 0 && c.Entry != "chan"
+	if c.GenPanic < 0 || c.Entry == "chan" {
+		return false
+	}
+	uc := c.userCancels()
+	return uc >= 2 || (uc >= 1 && c.ctxNear())
 }
 
 func (r *c07Run) enter(i int) {
@@ -512,7 +533,9 @@ func (r *c07Run) run() {
 	// call may be left the moment it returns (the generator has returned, all
 	// mappers are done). Otherwise user callbacks may still be running: give them
 	// the time they need and require that nothing is left afterwards.
-	r.strict = len(r.disturbing(r.tret)) == 0
+	// (A reducer that writes twice makes the caller panic at the second write,
+	// whatever the mappers are doing: nothing is complete then either.)
+	r.strict = len(r.disturbing(r.tret)) == 0 && !panicked
 	r.mu.Unlock()
 	if !r.strict {
 		time.Sleep(r.horizon())
@@ -520,6 +543,11 @@ func (r *c07Run) run() {
 	close(stop)
 	ctxCancel()
 	kit.Wait()
+	if os.Getenv("VERIF_C07_STACKS") != "" {
+		// debugging aid for replays: what is still there when the bubble ends
+		buf := make([]byte, 1<<20)
+		r.stacks = string(buf[:runtime.Stack(buf, true)])
+	}
 }
 
 // disturbing returns the cancel / panic / context events with ts <= upTo
@@ -547,12 +575,17 @@ func (r *c07Run) disturbing(upTo time.Duration) []c07Event {
 
 // ---------------------------------------------------------------- oracle
 
-func c07Interp(t *testing.T, c c07Case) (v kit.Verdict) {
+func c07NewRun(c c07Case) *c07Run {
 	r := &c07Run{c: c, mapped: map[int]int{}, written: map[c07Val]int{}, seen: map[c07Val]int{},
 		redErr: &c07Err{src: "reducer"}}
 	for i := range c.Items {
 		r.errs = append(r.errs, &c07Err{src: "item", i: i})
 	}
+	return r
+}
+
+func c07Interp(t *testing.T, c c07Case) (v kit.Verdict) {
+	r := c07NewRun(c)
 	if c.wedgeProne() {
 		return kit.Verdict{Excluded: true, Classes: []string{"excluded:wedge-prone"}}
 	}
@@ -609,6 +642,28 @@ func (r *c07Run) judge(res kit.BubbleResult) (v kit.Verdict) {
 	// panicChan any more (the caller has left its select). Exactly the runs with
 	// at least one panic of which none was re-raised.
 	knownShape := nPanics > 0 && !userPanicRaised
+	// Known finding 2: cancel closes the output channel while the reducer, having
+	// passed the check of guardedWriter.Write, sends on it: "send on closed
+	// channel" inside the reducer goroutine, whose recover then blocks in
+	// onceChan.write. Needs a reducer write at the very instant a cancel call
+	// completes (or the ctx.Done branch runs).
+	knownShape2 := false
+	if nPanics == 0 && r.returned {
+		fin := map[time.Duration]bool{}
+		for _, e := range r.events {
+			if e.kind == "cancelret" {
+				fin[e.ts] = true
+			}
+		}
+		if r.out.kind == "err" && r.out.err == context.DeadlineExceeded {
+			fin[r.tret] = true
+		}
+		for _, e := range r.events {
+			if e.kind == "write" && fin[e.ts] {
+				knownShape2 = true
+			}
+		}
+	}
 
 	// ---- the call returns
 	if res.Hang || !r.returned {
@@ -659,7 +714,16 @@ func (r *c07Run) judge(res kit.BubbleResult) (v kit.Verdict) {
 	}
 
 	tookAll := c.Red.Take < 0
-	if undisturbed {
+	_, _, totalWrites := r.writes(0)
+	if undisturbed && totalWrites >= 2 {
+		// "writing twice panics in the caller": the call ends at the second write,
+		// it does not wait for generator and mappers; completeness is not claimed.
+		cls["double-write"] = true
+		if msg := r.normalOutcome(); msg != "" {
+			return v.Failf("undisturbed run: %s; history: %v", msg, r.events)
+		}
+		cls["outcome:"+r.outClass()] = true
+	} else if undisturbed {
 		// ---- exactly once, complete
 		if len(r.mapped) != n {
 			return v.Failf("undisturbed run: %d of %d generated items reached a mapper", len(r.mapped), n)
@@ -673,7 +737,7 @@ func (r *c07Run) judge(res kit.BubbleResult) (v kit.Verdict) {
 		if c.hasReducer() && c.Red.Take > 0 && len(r.written) < c.Red.Take && len(r.seen) != len(r.written) {
 			return v.Failf("undisturbed run: reducer wanted %d values, %d written, received %d", c.Red.Take, len(r.written), len(r.seen))
 		}
-		if !r.genDone {
+		if !r.genDone && c.Entry != "finish" && c.Entry != "finishvoid" {
 			return v.Failf("undisturbed run returned before the generator function did")
 		}
 		nontrivial := false
@@ -711,6 +775,8 @@ func (r *c07Run) judge(res kit.BubbleResult) (v kit.Verdict) {
 			when, r.genDone, res.Raw, r.events, r.out, r.tret)
 		if knownShape {
 			v.Known = c07KnownID
+		} else if knownShape2 {
+			v.Known = c07KnownID2
 		}
 	}
 	return v
@@ -830,7 +896,7 @@ func (r *c07Run) disturbedOutcome(dist []c07Event, cls map[string]bool) string {
 			firsts = append(firsts, e)
 		}
 	}
-	lt, le, total := r.writes(first)
+	lt, le, _ := r.writes(first)
 	rret, hasRet := r.redret()
 	outputFirst := le > 0 || (hasRet && rret <= first)
 	if !c.hasReducer() {
@@ -874,6 +940,14 @@ func (r *c07Run) disturbedOutcome(dist []c07Event, cls map[string]bool) string {
 			return ""
 		}
 	}
+	if _, wle, _ := r.writes(r.tret); !strict && wle >= 2 && o.kind == "panic" && (c.Entry == "mr" || c.Entry == "chan") {
+		// "writing twice panics in the caller": both writes were delivered, whatever
+		// else had happened (e.g. a cancel call still waiting for the generator)
+		if _, user := o.pv.(c07Panic); !user {
+			cls["double-write-decided"] = true
+			return ""
+		}
+	}
 	if !strict && outputFirst {
 		// the reducer's result was there first (or at the same instant)
 		switch c.Entry {
@@ -881,12 +955,6 @@ func (r *c07Run) disturbedOutcome(dist []c07Event, cls map[string]bool) string {
 			if le > 0 && o.kind == "value" && o.val == any(c07Out{K: 0}) {
 				cls["output-decided"] = true
 				return ""
-			}
-			if le > 0 && total >= 2 && o.kind == "panic" {
-				if _, user := o.pv.(c07Panic); !user {
-					cls["output-decided"] = true
-					return ""
-				}
 			}
 			if lt == 0 && hasRet && rret <= first && o.kind == "err" && o.err == mr.ErrReduceNoOutput {
 				cls["output-decided"] = true
@@ -1039,6 +1107,41 @@ func c07Gen(zero bool) func(rt *rapid.T) c07Case {
 		}
 		return c
 	}
+}
+
+// Debugging aid, inert unless VERIF_C07_LOOP=n and VERIF_REPLAY are set: the
+// verdict of a case with events at the same virtual instant depends on the real
+// schedule, so a replay may need several attempts; prints the goroutines left
+// behind by the first failing attempt.
+func TestVerif_C07_zz_loop(t *testing.T) {
+	n, _ := strconv.Atoi(os.Getenv("VERIF_C07_LOOP"))
+	rp := os.Getenv("VERIF_REPLAY")
+	if n == 0 || rp == "" {
+		t.Skip("debug only")
+	}
+	b, err := os.ReadFile(rp)
+	if err != nil {
+		t.Fatal(err)
+	}
+	var rf struct {
+		Case c07Case `json:"case"`
+	}
+	if err := json.Unmarshal(b, &rf); err != nil {
+		t.Fatal(err)
+	}
+	_ = os.Setenv("VERIF_C07_STACKS", "1")
+	fails := 0
+	for i := 0; i < n; i++ {
+		r := c07NewRun(rf.Case)
+		res := kit.Bubble(t, r.run)
+		if v := r.judge(res); v.Fail != "" {
+			if fails == 0 {
+				fmt.Fprintf(os.Stderr, "attempt %d: %s (known=%q)\n%s\n", i, v.Fail, v.Known, r.stacks)
+			}
+			fails++
+		}
+	}
+	fmt.Fprintf(os.Stderr, "C07 loop: %d of %d attempts failed\n", fails, n)
 }
 
 func TestVerif_C07_mapreduce(t *testing.T) {
